@@ -9,21 +9,21 @@ VERIF = os.path.dirname(os.path.dirname(os.path.abspath(__file__)))
 TECH = "deterministic simulation with fault injection: seeded search over schedules (hash order, insertion order, option points), op histories and injected faults against real pgmpy, oracle = executable reference model; ddmin-minimised replay files"
 
 CHECKS = {
-    "C01": ("4 C01", "seeded exploration of VariableElimination.query / get_state_probability / predict_probability over PRNG-drawn networks, hash seeds, insertion orders, elimination-order options and virtual evidence; every answer compared by named assignment with the brute-force joint"),
-    "C02": ("4 C02", "seeded exploration of junction-tree layouts (hash seed x labels x insertion order x triangulation heuristic) for BN / MN / factor-graph / junction-tree worlds; clique and sepset beliefs and query answers compared with the brute-force joint after every step of an engine history"),
-    "C03": ("4 C03", "seeded exploration of MAP queries (VE all elimination orders, BP, predict under the SimParallel worker stub with batching / reorder / pickle isolation); returned assignment must attain the brute-force posterior maximum"),
-    "C04": ("4 C04", "op histories over a pool of live factors (in-place / out-of-place, refused ops, numpy and torch backends, hash-ordered result scopes); every pool member compared with a dict-of-assignments twin after every step"),
-    "C06": ("4 C06", "MLE / Bayesian / fit_update / EM under the SimParallel worker stub (batching, reorder, pickle isolation), batch-size knob and seed swarm; closed-form counts and brute-force observed-data likelihood as oracle"),
-    "C07": ("4 C07", "samplers run around a perturbed process-global numpy RNG; exact per-row law (support, weights, kernels), reproducibility under perturbation, Hoeffding-bounded frequency law with a 1e-12 per-cell error budget"),
-    "C09": ("4 C09", "write/read round trips through an in-memory file system with injected ENOSPC/EIO at every open / write / close / read point, BIF reader under the worker stub, every worker a different hash seed; oracle = named-assignment table of the source model"),
-    "C10": ("4 C10", "call histories against ScoreCache with a randomised capacity knob (evictions forced), compared with the uncached scorer and closed-form scores from raw counts; Markov-equivalence and permutation invariance checks"),
-    "C11": ("4 C11", "hill climbing under hash-order tie breaking, score-cache knob and option swarm; exhaustive and tree search under the worker stub; contract checked against a reference scorer with exhaustive move / DAG / spanning-tree enumeration"),
-    "C12": ("4 C12", "PC variants under hash-order pair visiting and the worker stub (isolation for the parallel variant) with an exact d-separation oracle; skeleton, separating sets and CPDAG compared with brute force; PDAG.to_dag contract"),
-    "C13": ("4 C13", "do() and CausalInference.query histories on one engine (VE and BP back-ends, refused queries in between) compared with the truncated-factorisation joint; adjustment-set enumeration against path-based criteria"),
-    "C14": ("4 C14", "model conversions under hash-order-driven triangulation / clique assignment with heuristic knob; normalised joint and partition function of the target compared with the source's brute-force joint; structural predicates"),
-    "C15": ("4 C15", "stateful edit histories (valid and refused operations at arbitrary points, live copies edited in turn) on BayesianNetwork / DAG / DBN / MarkovNetwork / JunctionTree against a logical graph+CPD reference model; invariants after every step"),
-    "C16": ("4 C16", "three monitors: deep snapshots of every argument around every call (purity), engine-with-history vs fresh engine after every step incl. refused and virtual-evidence queries (repeatability), twin runs under other labels / state orders / insertion orders / hash seeds / torch backend (representation independence)"),
-    "C17": ("4 C17", "DBNInference query histories on one engine under hash-order-driven junction-tree layouts compared with brute-force marginals of the unrolled network"),
+    "C01": ("3 C01", "seeded exploration of VariableElimination.query / get_state_probability / predict_probability over PRNG-drawn networks, hash seeds, insertion orders, elimination-order options and virtual evidence; every answer compared by named assignment with the brute-force joint"),
+    "C02": ("3 C02", "seeded exploration of junction-tree layouts (hash seed x labels x insertion order x triangulation heuristic) for BN / MN / factor-graph / junction-tree worlds; clique and sepset beliefs and query answers compared with the brute-force joint after every step of an engine history"),
+    "C03": ("3 C03", "seeded exploration of MAP queries (VE all elimination orders, BP, predict under the SimParallel worker stub with batching / reorder / pickle isolation); returned assignment must attain the brute-force posterior maximum"),
+    "C04": ("3 C04", "op histories over a pool of live factors (in-place / out-of-place, refused ops, numpy and torch backends, hash-ordered result scopes); every pool member compared with a dict-of-assignments twin after every step"),
+    "C06": ("3 C06", "MLE / Bayesian / fit_update / EM under the SimParallel worker stub (batching, reorder, pickle isolation), batch-size knob and seed swarm; closed-form counts and brute-force observed-data likelihood as oracle"),
+    "C07": ("3 C07", "samplers run around a perturbed process-global numpy RNG; exact per-row law (support, weights, kernels), reproducibility under perturbation, Hoeffding-bounded frequency law with a 1e-12 per-cell error budget"),
+    "C09": ("3 C09", "write/read round trips through an in-memory file system with injected ENOSPC/EIO at every open / write / close / read point, BIF reader under the worker stub, every worker a different hash seed; oracle = named-assignment table of the source model"),
+    "C10": ("3 C10", "call histories against ScoreCache with a randomised capacity knob (evictions forced), compared with the uncached scorer and closed-form scores from raw counts; Markov-equivalence and permutation invariance checks"),
+    "C11": ("3 C11", "hill climbing under hash-order tie breaking, score-cache knob and option swarm; exhaustive and tree search under the worker stub; contract checked against a reference scorer with exhaustive move / DAG / spanning-tree enumeration"),
+    "C12": ("3 C12", "PC variants under hash-order pair visiting and the worker stub (isolation for the parallel variant) with an exact d-separation oracle; skeleton, separating sets and CPDAG compared with brute force; PDAG.to_dag contract"),
+    "C13": ("3 C13", "do() and CausalInference.query histories on one engine (VE and BP back-ends, refused queries in between) compared with the truncated-factorisation joint; adjustment-set enumeration against path-based criteria"),
+    "C14": ("3 C14", "model conversions under hash-order-driven triangulation / clique assignment with heuristic knob; normalised joint and partition function of the target compared with the source's brute-force joint; structural predicates"),
+    "C15": ("3 C15", "stateful edit histories (valid and refused operations at arbitrary points, live copies edited in turn) on BayesianNetwork / DAG / DBN / MarkovNetwork / JunctionTree against a logical graph+CPD reference model; invariants after every step"),
+    "C16": ("3 C16", "three monitors: deep snapshots of every argument around every call (purity), engine-with-history vs fresh engine after every step incl. refused and virtual-evidence queries (repeatability), twin runs under other labels / state orders / insertion orders / hash seeds / torch backend (representation independence)"),
+    "C17": ("3 C17", "DBNInference query histories (filtering and smoothing, evidence anywhere, templates with zeros) on one engine under hash-order-driven junction-tree layouts compared with brute-force marginals of the unrolled network; constant network and initial-state completion"),
 }
 
 NOT_APPLICABLE = [
